@@ -439,6 +439,12 @@ def rule_hidden_columns(ctx: Ctx) -> RuleResult:
                 sites.append(("loop", n))
             elif isinstance(n, (ast.GeneratorExp, ast.ListComp)) and "dividechars" in ast.unparse(n.elt) and any("widths" in ast.unparse(g.iter) for g in n.generators):
                 sites.append(("comprehension", n))
+        # dividers exist only between *drawn* columns: a left edge computed from the column index
+        # (`i * self.dividechars`) charges one for every hidden column too
+        for n in fi.own_nodes():
+            if isinstance(n, ast.BinOp) and isinstance(n.op, ast.Mult) and any(isinstance(x, ast.Attribute) and x.attr == "dividechars" for x in (n.left, n.right)):
+                rr.inst(f"{short(fi)}:{norm(n, 40)}", True)
+                rr.add(finding("SIB", fi, n, f"`{norm(n, 50)}` in {fi.name}() counts one divider per column *index*: render() leaves a hidden (zero width) column out together with its divider, so everything right of a hidden column is located dividechars columns too far right (clicks are dropped or reach the child with shifted coordinates)", construct=f"{fi.name}: dividers counted per index: {norm(n, 40)}"))
         for kind, n in sites:
             has = any(isinstance(c, ast.Compare) and len(c.ops) == 1 and isinstance(c.comparators[0], ast.Constant) and c.comparators[0].value == 0 and isinstance(c.ops[0], (ast.LtE, ast.Gt, ast.Lt, ast.GtE, ast.Eq, ast.NotEq)) for c in ast.walk(n)) or any(isinstance(t, ast.UnaryOp) and isinstance(t.op, ast.Not) for g in getattr(n, "generators", []) for t in g.ifs)
             rr.inst(f"{short(fi)}:{kind}", True, {"function": short(fi), "site": norm(n if kind != 'loop' else n.iter, 50), "skips_hidden": has})
@@ -517,6 +523,8 @@ _PIL = "urwid/widget/pile.py"
 _COL = "urwid/widget/columns.py"
 _BOX = "urwid/widget/box_adapter.py"
 MUTANTS = [
+    Mut("columns-click-left-edge-by-index", "urwid/widget/columns.py", "Columns.mouse_event", "            if col < x:\n                return False", "            x = sum(widths[:i]) + i * self.dividechars\n            if col < x:\n                return False", "SIB|widget.columns.Columns.mouse_event|mouse_event: dividers counted per index"),
+    Mut("columns-pref-col-by-index", "urwid/widget/columns.py", "Columns.get_pref_col", "            col = cwidth // 2\n            col += sum(self.dividechars + wc for wc in widths[: self.focus_position] if wc > 0)", "            col = cwidth // 2\n            col += self.focus_position * self.dividechars\n            col += sum(widths[: self.focus_position])", "SIB|widget.columns.Columns.get_pref_col"),
     Mut("scrollbar-left-click-unshifted", "urwid/widget/scrollable.py", "ScrollBar.mouse_event", "        if self._scrollbar_side == SCROLLBAR_LEFT:\n            # the wrapped widget is drawn to the right of the bar\n            col -= size[0] - ow_size[0]\n", "", "SIB|widget.scrollable.ScrollBar.mouse_event"),
     Mut("twin-scrollbar-left-click-shift-spelled-out", "urwid/widget/scrollable.py", "ScrollBar.mouse_event", "            col -= size[0] - ow_size[0]\n", "            bar = size[0] - ow_size[0]\n            col = col - bar\n", twin=True),
     Mut("columns-click-counts-hidden-divider", "urwid/widget/columns.py", "Columns.mouse_event", "            if width <= 0:\n                # hidden column: not drawn, takes no divider (see render)\n                continue\n            if col < x:", "            if col < x:", "SIB|widget.columns.Columns.mouse_event"),
